@@ -6,11 +6,12 @@ mpmath coefficient table, optical theorem through calc_scat_matrix at
 theta = 0, exact Gauss-Legendre quadrature of |S|^2 (polynomial integrand),
 Rayleigh formula.
 """
+import itertools
 import math
 
 import numpy as np
 
-from lib import Checker, digest
+from lib import Checker, digest, fork_call
 from oracles import mie_ref
 
 PROPERTY = "C03"
@@ -47,12 +48,16 @@ POLS = [(1, 0), (0, 1), (0.6, -0.8)]
 
 LAYERED = [  # (indices, radii) physical, medium 1.33, wl 0.66
     ([1.45, 1.59], [0.3, 0.5]),
+    ([1.4, 1.5, 1.6], [0.2, 0.4, 0.6]),
+    ([1.59, 1.4, 1.7, 1.45], [0.15, 0.3, 0.45, 0.6]),
     ([1.59, 1.45], [0.2, 0.6]),
     ([1.59 + 0.05j, 1.45], [0.25, 0.5]),
-    ([1.4, 1.5, 1.6], [0.2, 0.4, 0.6]),
     ([1.33, 1.59], [0.4, 0.5]),
     ([1.7, 1.2, 1.45 + 0.01j], [0.1, 0.5, 0.9]),
+    ([1.45, 1.7, 1.5], [0.3, 0.35, 0.8]),
 ]
+MS_POLS = [(1, 0), (0, 1), (0.6, -0.8), (1, 0), (0, 1), (0.6, -0.8), (1, 1),
+           (0, 1)]
 MS_ONE = {"quick": [(1.2, 3.0), (1.2 + 0.01j, 1.0)],
           "thorough": [(1.2, 3.0), (1.2 + 0.01j, 1.0), (1.5, 0.5), (2.0, 5.0),
                        (0.75, 3.0), (1.5 + 0.5j, 2.0), (1.2, 8.0),
@@ -76,21 +81,75 @@ def cases(tier, seed):
                         "m": _mm(m), "x": x})
             reqs.append(mie_ref.req_homog(m, x))
     for i, (ns, rs) in enumerate(LAYERED):
-        if tier == "quick" and i >= 3:
+        if tier == "quick" and i >= 4:
             break
         out.append({"id": "layered#%d" % i, "kind": "layered", "i": i})
         k = 2 * math.pi * 1.33 / 0.66
         reqs.append(mie_ref.req_layered([n / 1.33 for n in ns],
                                         [k * r for r in rs]))
-    for m, x in MS_ONE[tier]:
+    for j, (m, x) in enumerate(MS_ONE[tier]):
+        # the polarization varies from case to case (index j+1: the first
+        # case is y-polarized)
         out.append({"id": "ms1:m=%r:x=%r" % (m, x), "kind": "ms1",
-                    "m": _mm(m), "x": x, "_timeout": 900})
+                    "m": _mm(m), "x": x, "pol": list(MS_POLS[(j + 1) % 8]),
+                    "_timeout": 900})
         reqs.append(mie_ref.req_homog(m, x))
     for i, _ in enumerate(MS_TWO[tier]):
         out.append({"id": "ms2#%d" % i, "kind": "ms2", "i": i,
                     "_timeout": 900})
+    # histories over near-identical spheres (a result remembered under a key
+    # that is too coarse -- rounded size parameter or index -- shows up as a
+    # dependence on the calls issued before)
+    refs = {}
+    for name in HOPS:
+        st, val = fork_call(_hop, name)
+        refs[name] = val if st == "ok" else "FAILED:%s:%r" % (st, val)
+    L = 2 if tier == "quick" else 3
+    for n in range(1, L + 1):
+        for seq in itertools.product(list(HOPS), repeat=n):
+            out.append({"id": "hist:" + ">".join(seq), "kind": "history",
+                        "seq": list(seq), "ref": {o: refs[o] for o in seq}})
     mie_ref.ensure(reqs)
     return out
+
+
+HOPS = {  # name -> (relative index, size parameter)
+    "A": (1.5, 3.0), "A-x+1e-5": (1.5, 3.00001), "A-m+1e-5": (1.50001, 3.0),
+    "A-absorbing": (1.5 + 2e-5j, 3.0), "tiny": (1.5, 1.0e-3),
+    "tiny+2%": (1.5, 1.02e-3), "B": (1.2, 30.0), "B-x+1e-4": (1.2, 30.0001),
+}
+
+
+def _hop(name):
+    from holopy.scattering import Sphere, Mie, calc_cross_sections
+    m, x = HOPS[name]
+    nmed, wl = 1.33, 0.66
+    k = 2 * math.pi * nmed / wl
+    n = m * nmed
+    sph = Sphere(n=n.real if complex(n).imag == 0 else n, r=x / k,
+                 center=(0, 0, 0))
+    cs = calc_cross_sections(sph, nmed, wl, (1, 0), theory=Mie()).values
+    S0 = _forward(Mie(), sph, nmed, wl)
+    return digest(np.asarray(cs, dtype=float), np.asarray(S0))
+
+
+def _run_history(case, ck):
+    outs = []
+    for i, name in enumerate(case["seq"]):
+        ref = case["ref"][name]
+        if str(ref).startswith("FAILED"):
+            ck.true("pristine-reference", False, "%s failed in a pristine "
+                    "interpreter: %s" % (name, ref))
+            return "ref-failed"
+        got = _hop(name)
+        ck.trans += 2
+        ck.true("history-independent", got == ref, "step %d (%s, m=%r x=%r) "
+                "of %s gives different cross sections / forward amplitude "
+                "than the same call in a pristine interpreter" %
+                (i + 1, name, HOPS[name][0], HOPS[name][1],
+                 ">".join(case["seq"])))
+        outs.append(got)
+    return digest(*outs)
 
 
 def _gl_integrals(theory, sph, nmed, wl, N, k):
@@ -286,7 +345,7 @@ def _run_ms1(case, ck):
     if m.imag == 0:
         n_sph = n_sph.real
     sph = Sphere(n=n_sph, r=x / k, center=(0.1, -0.2, 3.0))
-    pol = (1, 0)
+    pol = tuple(case["pol"])
     ref = calc_cross_sections(sph, nmed, wl, pol, theory=Mie()).values
     got = calc_cross_sections(Spheres([sph]), nmed, wl, pol,
                               theory=Multisphere()).values
@@ -308,12 +367,18 @@ def _run_ms1(case, ck):
     e = abs(got[2] - (got[0] + got[1])) / abs(got[2])
     ck.true("energy", e <= 1e-12, "Multisphere: Cext != Csca + Cabs")
     S0 = _forward(Multisphere(), Spheres([sph]), nmed, wl)
-    ot = 4 * math.pi / k ** 2 * S0[0, 0].real
+    # forward amplitude along the incident polarization (theta = phi = 0:
+    # parallel = x, perpendicular = -y)
+    nrm = math.hypot(*pol)
+    px, py = pol[0] / nrm, pol[1] / nrm
+    fwd = px * px * S0[0, 0] + py * py * S0[1, 1] - \
+        px * py * (S0[0, 1] + S0[1, 0])
+    ot = 4 * math.pi / k ** 2 * fwd.real
     e = abs(ot - got[2]) / abs(got[2])
     ck.metric("ms-optical-theorem", e)
     ck.true("ms-optical-theorem", e <= 1e-6, "Multisphere Cext %r vs "
-            "4pi/k^2 Re S(0) %r from its own calc_scat_matrix" %
-            (got[2], ot))
+            "4pi/k^2 Re S(0) %r from its own calc_scat_matrix (pol %r)" %
+            (got[2], ot, pol))
     return digest(np.asarray(got, dtype=float))
 
 
@@ -344,5 +409,5 @@ def _run_ms2(case, ck):
 def run_case(case):
     ck = Checker()
     fp = {"sphere": _run_sphere, "layered": _run_layered, "ms1": _run_ms1,
-          "ms2": _run_ms2}[case["kind"]](case, ck)
+          "ms2": _run_ms2, "history": _run_history}[case["kind"]](case, ck)
     return ck.result(fp=fp)
